@@ -15,6 +15,8 @@ PM = "grin_core::core::pmmr::pmmr::PMMR::"
 
 
 def run(c):
+    import r9
+    c.r9("C02")
     # --- fork-local validation dominates application
     CL = P + "process_block@txhashset::txhashset::extending"
     c.r1("rewind-before-utxo", CL, P + "rewind_and_apply_fork", sink=P + "validate_utxo", via=2)
